@@ -50,3 +50,14 @@ Theorem C19_loglik_pieces :
      Gen_pois_ll_term rnd logpmf mu (IZR k) (Some e) (Some w) = logpmf (rnd (IZR k * w)) (mu * (w * e))).
 Proof. split; [exact rate_times_exposure|]. split; [exact rint_IZR|]. split; [exact log_pdf_is_kernel|exact loglik_term_weighted]. Qed.
 Print Assumptions C19_loglik_pieces.
+
+(* the conversion keeps the weighted count (rate x weight = count x sample weight) for every non-zero exposure, and a change of
+   exposure units c rescales the rate by 1/c and the weight by c: exposure only moves mass between "rate" and "weight" *)
+Theorem C19_conversion_preserves_counts : forall y e w c, e <> 0 -> c <> 0 ->
+  fst (Gen_pois_fit_data y (Some e) (Some w)) * snd (Gen_pois_fit_data y (Some e) (Some w)) = y * w /\
+  fst (Gen_pois_fit_data y (Some e) None) * snd (Gen_pois_fit_data y (Some e) None) = y /\
+  Gen_pois_fit_data y (Some (c * e)) (Some w) =
+    (fst (Gen_pois_fit_data y (Some e) (Some w)) / c, c * snd (Gen_pois_fit_data y (Some e) (Some w))).
+Proof. intros y e w c He Hc. destruct (rate_times_weight_is_count y e w He) as [H1 H2].
+  split; [exact H1|split; [exact H2|exact (exposure_units y e w c He Hc)]]. Qed.
+Print Assumptions C19_conversion_preserves_counts.
